@@ -91,12 +91,8 @@ pub fn run(tier: Tier) -> i32 {
         match build_file(spec) {
             Err(_) => acc.count("prerequisite_failed_writer_error_(C01)", 1),
             Ok((entries, bytes)) => {
-                let layout = vlib::fmt::decode_file(&bytes, Some(spec.cfg.effective_interval())).ok().filter(|l| l.entries == entries);
-                if layout.is_none() {
-                    // the property quantifies over valid files; an invalid one is C01/C09's business
-                    acc.count("prerequisite_failed_file_not_valid_(C01/C09)", 1);
-                    return;
-                }
+                // the layout is only used for statistics (which block a level really holds)
+                let layout = vlib::fmt::decode_structure(&bytes).ok();
                 let multi = layout
                     .as_ref()
                     .map(|l| l.by_depth.iter().enumerate().any(|(d, b)| d >= 1 && d <= l.trailer.levels as usize && b.len() >= 2))
